@@ -128,6 +128,14 @@ Theorem C13_code_roundtrip : forall c, code_from (code_ds c) = Ok c.
 Proof. exact code_roundtrip. Qed.
 Print Assumptions C13_code_roundtrip.
 
+(* a concept passed as a pydicom Code keeps all four fields, scheme version
+   included, through from_code, serialisation and parsing *)
+Theorem C13_from_code_keeps_version : forall c,
+  from_code c = c /\ c_version (from_code c) = c_version c /\
+  code_from (code_ds (from_code c)) = Ok c.
+Proof. intros c. rewrite from_code_id. repeat split. apply code_roundtrip. Qed.
+Print Assumptions C13_from_code_keeps_version.
+
 Theorem C13_code_value_split : forall v,
   (code_kw v = "URNCodeValue" <-> (prefix "urn" v = true \/ contains "://" v = true)) /\
   (code_kw v = "LongCodeValue" <-> (prefix "urn" v = false /\ contains "://" v = false /\ 16 < slen v)) /\
